@@ -31,3 +31,49 @@ Definition check_c15 (c : c15_case) : list string :=
   | Some m => tag_if (negb (rclass_eqb m (k_obs c))) ("mismatch:class-" +++ k_reader c)
   | None => []
   end.
+
+(* ---- session 3: the readers added to the model, compared with the real functions --------
+   (stage `sites`). [s_out]: what the implementation returned, as strings; [s_obytes]: a
+   byte result. A panic or a timeout of the real function is a violation whatever the model says. *)
+Record site_case := {
+  s_kind : string; s_in : string; s_ins : list string; s_nums : list Z;
+  s_b64 : codec_tbl; s_hex : codec_tbl;
+  s_obs : rclass; s_out : list string; s_obytes : option (list N)
+}.
+Definition mkind_of (z : Z) : mkind :=
+  if (z =? 0)%Z then MSign else if (z =? 1)%Z then MPlain else if (z =? 2)%Z then MEmpty else MBad.
+Definition bool_str (b : bool) : string := if b then "true" else "false".
+Definition cmp {A} (kind : string) (obs : rclass) (out_ok : A -> bool) (m : res A) : list string :=
+  tag_if (negb (rclass_eqb (class_of m) obs)) ("mismatch:class-" +++ kind) ++
+  match m with
+  | Ok a => tag_if (rclass_eqb obs CkOk && negb (out_ok a)) ("mismatch:value-" +++ kind)
+  | _ => []
+  end.
+Definition check_site (c : site_case) : list string :=
+  let k := s_kind c in
+  class_tags k (s_obs c) ++
+  if k =? "readReleaseData" then
+    cmp k (s_obs c) (fun r => list_eqb String.eqb [rl_id r; rl_name r; rl_version r] (s_out c)) (read_release (s_in c))
+  else if k =? "repoLine" then
+    (* s_ins = [existing repository directory; what Source() says for it]; an index comes back only for that directory *)
+    cmp k (s_obs c) (fun nu => match s_ins c with
+                               | [d; src] => if snd nu =? d then list_eqb String.eqb (s_out c) [fst nu; src] else list_eqb String.eqb (s_out c) []
+                               | _ => false
+                               end) (repo_line (s_in c))
+  else if k =? "unifySplit" then
+    cmp k (s_obs c) (fun nvp => let '(n, _, p) := nvp in list_eqb String.eqb (s_out c) [n; p]) (unify_split (s_in c))
+  else if k =? "checksumFromHeader" then
+    cmp k (s_obs c) (fun o => option_eqb bytes_eqb o (s_obytes c))
+      (checksum_from_header (tbl_dec (s_b64 c)) (tbl_dec (s_hex c))
+         (match s_nums c with 1%Z :: _ => Some (s_in c) | _ => None end))
+  else if k =? "expandApk" then
+    match s_nums c with
+    | g :: ms => cmp k (s_obs c) (fun sg => list_eqb String.eqb (s_out c) [bool_str sg]) (expand_apk (map mkind_of ms) (negb (g =? 0)%Z))
+    | [] => ["mismatch:malformed-case"]
+    end
+  else if k =? "split" then
+    match s_nums c with
+    | _ :: ms => cmp k (s_obs c) (fun n => list_eqb String.eqb (s_out c) [fmt_n (N.of_nat n)]) (split_parts (map mkind_of ms))
+    | [] => ["mismatch:malformed-case"]
+    end
+  else ["mismatch:unknown-kind"].
